@@ -443,7 +443,7 @@ def run(model, rep, tier):
     ft = model.func("dns.rdata.from_text")
     ws = [w for w in ast.walk(ft.node) if isinstance(w, ast.With) and any("ExceptionWrapper" in src(i.context_expr) for i in w.items)]
     t = " ".join(src(ws[0]).split()) if ws else ""
-    rep.check(bool(ws) and "GenericRdata.from_text" in t and "from_wire(rdclass, rdtype, grdata.data, 0, len(grdata.data), origin)" in t and "rwire != grdata.data" in t, "R-05.4", ft.qualname, where(ft, ft.node),
+    rep.check(bool(ws) and "GenericRdata.from_text" in t and "from_wire(rdclass, rdtype, grdata.data, 0, len(grdata.data), origin)" in t and "rwire != grdata.data" in t and "rwire = rdata.to_wire(origin=origin)" in t, "R-05.4", ft.qualname, where(ft, ft.node),
               "\\# for a known type: generic parse, re-decode with the type's reader, re-encode and compare, all inside the wrapper", "generic-form handling for known types changed", stmt="generic-known")
     gt = model.func("dns.rdata.GenericRdata.from_text")
     t = " ".join(src(gt.node).split())
